@@ -261,7 +261,11 @@ def run_pair(job):
                 plans[i] = [h_ * ph_ + 4 + j_ + 1 for h_ in range(min(2, len(cs["hosts"]))) for j_ in range(ne_)]
         recs = {i: Recorder(os.path.join(wd, "trace%d.ndjson" % i), len(cs_by[i]["hosts"]), cs=cs_by[i]) for i in cs_by}
         eid = 0
-        for sched in scheds:
+        # Action OBJECTS shared between environments (same layout): in every second schedule a step is made with the
+        # member of the OTHER environment's action list that has the same index
+        share_actions = name in ("same_layout_other_content", "same_wiring_other_firewall",
+                                 "same_layout_other_host_order", "same_scenario")
+        for si_, sched in enumerate(scheds):
             live = {}            # slot -> (eid, scn id, env, step counter)
             for (kind, slot, s, foreign, kf) in sched:
                 before = {sl: snap(v[2]) for sl, v in live.items() if sl != slot}
@@ -276,7 +280,11 @@ def run_pair(job):
                     k = plans[s][live[slot][3] % len(plans[s])]
                     live[slot][3] += 1
                     a = pyref.flat_action(cs_by[s], k)
-                    if flat_actions:
+                    others_ = [v for sl_, v in live.items() if sl_ != slot]
+                    if flat_actions and share_actions and si_ % 2 == 1 and others_ \
+                            and len(others_[0][2].action_space.actions) > k - 1:
+                        sp_ = ("realobj", others_[0][2].action_space.actions[k - 1])
+                    elif flat_actions:
                         sp_ = ("int", k - 1)
                     else:
                         from harness.dynamic import encode_param
